@@ -54,8 +54,13 @@ class CallGraph:
             self.trait_methods.setdefault((b.impl["trait"], b.name), []).append(b)
         self.local_adts = set(prog.adts.keys())
         self._adts_in_type_cache = {}
+        self.callsites = {}    # callee body id -> [(caller body, callee record)]
+        self.deferred = []     # trait calls through a type parameter: (body, callee record, block, param index)
+        self.cha_fallback = []
         for b in prog.bodies.values():
             self._build(b)
+        for (b, c, bi, idx) in self.deferred:
+            self._resolve_deferred(b, c, bi, idx)
 
     # ------------------------------------------------------------------ type helpers
     def adts_in_type(self, crate, tix, seen=None):
@@ -112,6 +117,49 @@ class CallGraph:
     def _add(self, b, target_id, bi, why):
         if target_id in self.prog.bodies:
             self.edges.setdefault(b.id, []).append((target_id, bi, why))
+
+    def _instantiations(self, body, idx, depth=0, seen=None):
+        """concrete ADT names substituted for the idx-th type parameter of `body` by its callers;
+        None when some caller is unknown / still generic beyond the search depth (fall back to CHA)"""
+        seen = seen or set()
+        root = self.prog.bodies.get(body.root, body)
+        if (root.id, idx) in seen or depth > 4:
+            return None
+        seen.add((root.id, idx))
+        sites = self.callsites.get(root.id, [])
+        if not sites:
+            return None
+        out = set()
+        for caller, c in sites:
+            if idx >= len(c["targs"]):
+                return None
+            t = self.prog.types[caller.crate][c["targs"][idx]]
+            if t["k"] == "adt":
+                out.add(t["name"])
+            elif t["k"] == "param":
+                gens = caller.j.get("generics", [])
+                if t["name"] not in gens:
+                    return None
+                sub = self._instantiations(caller, gens.index(t["name"]), depth + 1, seen)
+                if sub is None:
+                    return None
+                out |= sub
+            else:
+                return None
+        return out
+
+    def _resolve_deferred(self, b, c, bi, idx):
+        inst = self._instantiations(b, idx)
+        cands = self.trait_methods.get((c["trait"], c["name"]), [])
+        if inst is None:
+            self.cha_fallback.append((b.id, bi, c["def"]))
+            for tb in cands:
+                self._add(b, tb.id, bi, "cha")
+            return
+        for tb in cands:
+            a = self._self_adt(tb)
+            if a is not None and _same_adt(a, inst):
+                self._add(b, tb.id, bi, "instantiated " + a.split("::")[-1])
 
     def _build(self, b):
         prog = self.prog
@@ -190,6 +238,7 @@ class CallGraph:
         cid = c["id"]
         if c["resolved"] and cid in prog.bodies:
             self._add(b, cid, bi, why)
+            self.callsites.setdefault(cid, []).append((b, c))
             # closures in the type args still run inside local generic callees: they are reached
             # through the callee's own unresolved FnMut calls; add them conservatively here
             for tix in c["targs"]:
@@ -197,6 +246,14 @@ class CallGraph:
                 for f in fns:
                     self._add(b, f, bi, "closure-arg")
             return
+        if c["resolved"] and cid in prog.bodies:
+            pass
+        if not c["resolved"] and c["trait_item"] and c["targs"]:
+            t0 = prog.types[b.crate][c["targs"][0]]
+            gens = b.j.get("generics", [])
+            if t0["k"] == "param" and t0["name"] in gens and (c["trait"], c["name"]) in self.trait_methods:
+                self.deferred.append((b, c, bi, gens.index(t0["name"])))
+                return
         if not c["resolved"] and c["trait_item"]:
             # class-hierarchy approximation over local impls of the trait method
             hit = False
